@@ -169,3 +169,22 @@ Example accept_json_nonvacuous :
             (jtok "{""alg"":""ES256"",""kid"":""did:x#k"",""jwk"":{""kty"":""EC""}}" "QQ" "QQ") = Reject StVerif /\
   sig_checking VBasic.
 Proof. vm_compute. repeat split; try (eexists; reflexivity). Qed.
+
+(* CLAIMS DECODING inside the model: jwt.Parse with claims decoding accepts only when the payload bytes start with
+   ONE JSON value that is an object without duplicate member names (numbers of any magnitude; whatever follows the
+   closing brace is not looked at) or the literal null *)
+Theorem jwt_accept_claims_decoded : forall ph rs sm c det tok h payload,
+  parse_jwt ph rs sm claims_obj Fixed c false det tok = Accept h payload ->
+  (exists m r, pval false (S (S (List.length payload))) payload = Some (VObj m, r) /\ NoDup (map fst m)) \/
+  (exists r, pval false (S (S (List.length payload))) payload = Some (VNull, r)).
+Proof. exact (fun ph rs sm c det tok h payload H => claims_obj_sound payload (jwt_accept_claims ph rs sm c det tok h payload H)). Qed.
+Print Assumptions jwt_accept_claims_decoded.
+
+Example claims_decoder_behaviour :
+  claims_obj (chars "{""iss"":""a"",""exp"":1e999}") = true /\ claims_obj (chars "{""iss"":""a""}xyz") = true /\
+  claims_obj (chars "null") = true /\ claims_obj (chars "null ") = true /\ claims_obj (chars "nullx") = false /\
+  claims_obj (chars "{""iss"":""a"",""iss"":""b""}") = false /\ claims_obj (chars "[1]") = false /\
+  claims_obj (chars "") = false /\ claims_obj (chars "{""exp"":01}") = false /\
+  (* the header decoder converts numbers, the claims decoder does not *)
+  parse_json (chars "{""exp"":1e999}") = None.
+Proof. vm_compute. repeat split. Qed.
